@@ -14,7 +14,9 @@ def args_of(o, inp, out, alt):
     c = o["cmd"]
     t = ["-t", str(o["threads"])]
     if c == "oligo":
-        a = ["comp", "oligo", "-i", "-" if o["stdin"] else inp, "-o", out, "-k", str(o["k"]), "-p", o["preset"]] + t
+        # (a number may be written with leading zeros or a plus sign)
+        ks = {16: "0%d", 1: "+%d", 64: "000%d"}.get(o["threads"], "%d") % o["k"]
+        a = ["comp", "oligo", "-i", "-" if o["stdin"] else inp, "-o", out, "-k", ks, "-p", o["preset"]] + t
         # flags as separate tokens or as one cluster of short options, in either order
         if o["counts"] and o["header"] and o["threads"] in (0, 4):
             return a + (["-Hc"] if o["threads"] == 0 else ["-cH"])
